@@ -29,7 +29,12 @@ def main():
             return np.log(self.in_bounds(x), dtype=float) - np.log(64.0)
 
         def log_likelihood(self, x):
-            return -0.5 * (x["x"] ** 2 + (x["y"] - 0.5) ** 2) * cfg.get("sharp", 1.0) + cfg.get("offset", 0.0)
+            ll = -0.5 * (x["x"] ** 2 + (x["y"] - 0.5) ** 2) * cfg.get("sharp", 1.0) + cfg.get("offset", 0.0)
+            if cfg.get("cut"):
+                # a likelihood that is exactly zero on part of the prior (hard edge): such samples are returned and counted
+                with np.errstate(divide="ignore"):
+                    ll = ll + np.log((x["x"] ** 2 + x["y"] ** 2 <= cfg["cut"] ** 2).astype(float))
+            return ll
 
         def to_unit_hypercube(self, x):
             y = x.copy()
